@@ -132,6 +132,19 @@ fn live_store_programs() -> Vec<(String, String)> {
             out.push((format!("{name}|locals-in-front={pad}"), t.replace("P\n", &padding).replace('P', "") + "\n"));
         }
     }
+    // a dead store whose value reads a variable of the enclosing function before that variable
+    // is declared in the running activation (hoisted function, call placed before the `make`):
+    // the read ends the run with an error, with or without the plan
+    for (name, read) in [("plain", "zz_late"), ("interpolated", "\"v={zz_late}\""), ("in-operand", "zz_late add 1")] {
+        out.push((
+            format!("captured-variable-read-before-its-declaration-{name}|locals-in-front=0"),
+            format!("do zz_o() start\nshout(\"before\")\nmake zz_u get zz_r()\nmake zz_late get 5\ndo zz_r() start\nreturn {read}\nend\nshout(\"after\")\nreturn 0\nend\nzz_o()\n"),
+        ));
+        out.push((
+            format!("captured-variable-read-before-its-declaration-{name}-unused-local|locals-in-front=0"),
+            format!("do zz_o() start\nshout(\"before\")\nzz_r()\nmake zz_late get 5\ndo zz_r() start\nmake zz_x get {read}\nreturn 0\nend\nshout(\"after\")\nreturn 0\nend\nzz_o()\n"),
+        ));
+    }
     out
 }
 
@@ -166,7 +179,8 @@ fn run_live_stores(ctx: &mut Ctx, first: u64) {
                     ctx.out.inconclusive(idx, "live-store program rejected", json!({"name": name}));
                 } else if with.output != without.output || with.ending != without.ending {
                     let shape = name.split('|').next().unwrap_or("");
-                    ctx.out.fail(idx, &format!("product|live-store-pruned|{shape}"), json!({"program": name, "pruned": with.output, "full": without.output, "pruned_ending": with.ending, "full_ending": without.ending}), replay);
+                    let what = if shape.starts_with("captured-variable") { "error-pruned" } else { "live-store-pruned" };
+                    ctx.out.fail(idx, &format!("product|{what}|{shape}"), json!({"program": name, "pruned": with.output, "full": without.output, "pruned_ending": with.ending, "full_ending": without.ending}), replay);
                 } else {
                     ctx.out.tag("product.live-store.same");
                     ctx.out.nontrivial(util::hash64(src.as_bytes()));
